@@ -176,13 +176,17 @@ func (kgdb *KVInterfaceGDB) DelEdge(eid string) error {
 	skey := SrcEdgeKey(kgdb.graph, sid, did, eid, label, etype)
 	dkey := DstEdgeKey(kgdb.graph, sid, did, eid, label, etype)
 
-	if err := kgdb.kvg.kv.Delete(ekey); err != nil {
-		return err
-	}
-	if err := kgdb.kvg.kv.Delete(skey); err != nil {
-		return err
-	}
-	if err := kgdb.kvg.kv.Delete(dkey); err != nil {
+	// the edge record and its two adjacency entries go in one transaction, so
+	// that a crash cannot leave adjacency entries without their edge
+	err := kgdb.kvg.kv.Update(func(tx kvi.KVTransaction) error {
+		for _, k := range [][]byte{ekey, skey, dkey} {
+			if err := tx.Delete(k); err != nil {
+				return err
+			}
+		}
+		return nil
+	})
+	if err != nil {
 		return err
 	}
 	kgdb.kvg.ts.Touch(kgdb.graph)
